@@ -176,6 +176,98 @@ theorem gate_antiadmin (db : Db) (now : Int) (m : Msg) (cmd : List Str)
 example : PlainCap adminS := by decide
 example : PlainCap ['s', 'c', 'h', 'e', 'd', 'u', 'l', 'e', 'r', '.', 'a', 'd', 'd'] := by decide
 
+/-- the reply names `owner`: when the "Y" check lets the call through, the first loop iteration
+(`P` = owner) answers `denied "owner"` -/
+theorem gate_antiowner_reply (db : Db) (now : Int) (m : Msg) (P : Str) (cmd : List Str) (y : Str)
+    (hP : canonicalName P = ownerS) (hL : asciiLower P = ownerS)
+    (hdef : antiOwnerS ∈ db.defaults) (hu : NotOwner db now m.pfx)
+    (hy : cmd.getLast? = some y) (hyallow : checkName db now m y = .allow) :
+    gate db now m P cmd = .denied ownerS := by
+  have hne : cmd ≠ [] := by
+    intro h; subst h; simp at hy
+  obtain ⟨rest, hr⟩ := fullCommandName_head (canonicalName P) cmd hne
+  have hown : checkName db now m ownerS = .denied ownerS := by
+    unfold checkName
+    have h1 : makeAntiCapability ownerS = .ok antiOwnerS := by decide
+    rw [h1]
+    simp only
+    unfold antiHit
+    have h2 : isAntiCapability antiOwnerS = true := by decide
+    simp only [h2, Bool.not_true, Bool.false_eq_true, ↓reduceIte, check_antiowner db now m.pfx hdef hu]
+    decide
+  unfold gate
+  rw [hy]
+  simp only
+  unfold gateChecks
+  rw [hr, hyallow]
+  simp only [prefixes, List.map_cons, firstDeny]
+  have : checkPath db now m (asciiLower P) [canonicalName P] = .denied ownerS := by
+    unfold checkPath
+    rw [hP, hL, resolvePath_cons]
+    simpa [joinChar] using hown
+  rw [this]
+  simp [firstDeny]
+
+/-! ### `getChannel`'s lazy creation of a default record changes no decision -/
+
+theorem getChannel_touch (db : Db) (ch ch' : Str) : (db.touchChannel ch).getChannel ch' = db.getChannel ch' := by
+  unfold Db.touchChannel
+  cases h : db.channels.lookup (chanKey ch) with
+  | some c => simp
+  | none =>
+    simp only
+    unfold Db.getChannel
+    simp only [List.lookup_append]
+    cases h2 : db.channels.lookup (chanKey ch') with
+    | some c => simp
+    | none =>
+      simp only [Option.none_or]
+      by_cases hk : chanKey ch' = chanKey ch
+      · simp [List.lookup, hk]
+      · have : (chanKey ch' == chanKey ch) = false := by simpa using hk
+        simp [List.lookup, this]
+
+
+/-- two databases that agree on users, default sets, flags and on what `getChannel` answers take
+the same capability decisions -/
+theorem checkCapability_congr (db db' : Db) (now : Int) (h cap : Str) (fl : Flags)
+    (hu : db'.users = db.users) (hd : db'.defaults = db.defaults) (hr : db'.registered = db.registered)
+    (hf : db'.defaultFlag = db.defaultFlag) (ht : db'.timeout = db.timeout)
+    (hc : ∀ c, db'.getChannel c = db.getChannel c) :
+    db'.checkCapability now h cap fl = db.checkCapability now h cap fl := by
+  simp only [Db.checkCapability, Db.recognise, Db.lookup, Db.checkUnknown, Db.globalsUnknown, Db.checkKnown,
+    Db.channelStage, Db.globalsKnown, hu, hd, hr, hf, ht, hc]
+
+theorem checkCapability_touch (db : Db) (now : Int) (h cap ch : Str) (fl : Flags) :
+    (db.touchChannel ch).checkCapability now h cap fl = db.checkCapability now h cap fl := by
+  apply checkCapability_congr
+  · unfold Db.touchChannel; split <;> rfl
+  · unfold Db.touchChannel; split <;> rfl
+  · unfold Db.touchChannel; split <;> rfl
+  · unfold Db.touchChannel; split <;> rfl
+  · unfold Db.touchChannel; split <;> rfl
+  · exact getChannel_touch db ch
+
+/-- the channel record `getChannel` creates on the way (the only state a refused call leaves
+behind) changes no later gate decision -/
+theorem gate_touch (db : Db) (now : Int) (m : Msg) (P : Str) (cmd : List Str) (ch : Str) :
+    gate (db.touchChannel ch) now m P cmd = gate db now m P cmd := by
+  have hdf : (db.touchChannel ch).defaultFlag = db.defaultFlag := by
+    unfold Db.touchChannel; split <;> rfl
+  have hany : ∀ l, anyHeld (db.touchChannel ch) now m.pfx l = anyHeld db now m.pfx l := by
+    intro l
+    induction l with
+    | nil => rfl
+    | cons c cs ih => simp only [anyHeld, checkCapability_touch, ih]
+  have hname : ∀ n, checkName (db.touchChannel ch) now m n = checkName db now m n := by
+    intro n
+    simp only [checkName, checkNameInChannel, antiHit, finish, checkCapability_touch, hany, hdf, getChannel_touch]
+  have hpath : checkPath (db.touchChannel ch) now m (asciiLower P) = checkPath db now m (asciiLower P) := by
+    funext p
+    simp only [checkPath, hname]
+  simp only [gate, gateChecks, hname, hpath]
+
+
 /-! ## converters -/
 
 /-- **converter_guard**: whatever the unmodelled converters `oth` do, and wherever in the spec it
@@ -649,6 +741,21 @@ theorem plugin_names_canonical :
     Gen.commands.any (fun r => r.plugin == ['A', 'd', 'm', 'i', 'n']) = true ∧
     Gen.capInsideContext = [] := by
   decide +kernel
+
+/-- every entry of the committed list is, after decoding the generated row, a modelled capability
+item of that row's spec — so `guarded_body_needs_capability` / `converter_guard_chan` apply to it -/
+theorem required_rows_guarded :
+    ∀ x ∈ requiredGuards, ∃ r ∈ Gen.commands, r.plugin = x.1 ∧ r.path = x.2.1 ∧
+      Item.ofGen (x.2.2.1, x.2.2.2) ∈ r.spec.map Item.ofGen ∧
+      (Item.ofGen (x.2.2.1, x.2.2.2) = .cap x.2.2.2 ∨ Item.ofGen (x.2.2.1, x.2.2.2) = .capNoOwner x.2.2.2 ∨
+       Item.ofGen (x.2.2.1, x.2.2.2) = .chancap x.2.2.2) := by
+  decide +kernel
+
+theorem defaults_mutators_ok :
+    Gen.defaultCapsMutators = ["plugins/Owner/plugin.py:Owner.defaultcapability:add",
+                               "plugins/Owner/plugin.py:Owner.defaultcapability:add",
+                               "plugins/Owner/plugin.py:Owner.defaultcapability:remove"] := by
+  decide
 
 /-- the call graph around the gate: `callCommand` is only called from `_callCommand` (overrides
 delegate to their parent), `_callCommand` only from `finalEval` (directly or as a thread target)
